@@ -152,6 +152,9 @@ def load_private(modname):
     def _import(nm, globals=None, locals=None, fromlist=(), level=0):  # noqa: A002
         if nm == "re" and level == 0 and not fromlist:
             return strmodel.RE
+        if level == 0 and fromlist and nm.startswith("ioos_qc.") and ("pyvc_target." + nm) in sys.modules:
+            # `from ioos_qc.x import y` inside a function under verification: the private copy of x
+            return sys.modules["pyvc_target." + nm]
         return real_import(nm, globals, locals, fromlist, level)
 
     bi["__import__"] = _import
